@@ -31,6 +31,7 @@ type StructAnn struct {
 	conds    map[string]string // cond field -> lock path
 	invs     []specLine
 	elemInv  map[string][]specLine // channel field -> invariant over `elem`
+	poolInv  map[string][]specLine // *sync.Pool field -> invariant over `elem` (an interface value) and the struct's fields
 	openChan map[string]bool       // channel fields that are never closed
 	closeTok map[string]string     // channel field -> "" (swap discipline) or flag field name
 	line     int
@@ -49,6 +50,7 @@ type FuncContract struct {
 	key       string // "(*socket).SendMsg" or "NewMessage"
 	requires  []specLine
 	assumes   []specLine // entry assumptions NOT checked at call sites (listed as assumptions)
+	trusts    []specLine // postconditions assumed at call sites and NOT checked against the body (listed as assumptions)
 	ensures   []specLine
 	holds     []string // lock paths held on entry and exit
 	acquires  []string
@@ -266,7 +268,7 @@ func (a *Annotations) parseFile(path, pkg string) error {
 		sl := specLine{text: rest, file: relfile, line: ln}
 		switch word {
 		case "struct":
-			cs = &StructAnn{pkg: pkg, name: rest, key: pkg + "." + rest, fields: map[string]*fieldAnn{}, nullable: map[string]bool{}, locks: map[string]int{}, conds: map[string]string{}, elemInv: map[string][]specLine{}, openChan: map[string]bool{}, file: relfile, line: ln}
+			cs = &StructAnn{pkg: pkg, name: rest, key: pkg + "." + rest, fields: map[string]*fieldAnn{}, nullable: map[string]bool{}, locks: map[string]int{}, conds: map[string]string{}, elemInv: map[string][]specLine{}, poolInv: map[string][]specLine{}, openChan: map[string]bool{}, file: relfile, line: ln}
 			a.structs[cs.key] = cs
 			cf = nil
 		case "func":
@@ -404,6 +406,15 @@ func (a *Annotations) structClause(cs *StructAnn, word, rest string, sl specLine
 			f = strings.TrimSpace(f)
 			cs.elemInv[f] = append(cs.elemInv[f], sl)
 		}
+	case "pool_elem":
+		// pool_elem <poolfield>: <expr over elem and the struct's fields>   (what the pool holds)
+		i := strings.Index(rest, ":")
+		if i < 0 {
+			return fmt.Errorf("pool_elem <field>: <expr>")
+		}
+		sl.text = strings.TrimSpace(rest[i+1:])
+		f := strings.TrimSpace(rest[:i])
+		cs.poolInv[f] = append(cs.poolInv[f], sl)
 	default:
 		return fmt.Errorf("unknown struct clause %q", word)
 	}
@@ -416,6 +427,8 @@ func (a *Annotations) funcClause(cf *FuncContract, word, rest string, sl specLin
 		cf.requires = append(cf.requires, sl)
 	case "assumes":
 		cf.assumes = append(cf.assumes, sl)
+	case "trusts":
+		cf.trusts = append(cf.trusts, sl)
 	case "ensures":
 		cf.ensures = append(cf.ensures, sl)
 	case "holds":
